@@ -783,7 +783,7 @@ func (r *run) Do(op string) string {
 			r.w.armed = false
 			r.w.mu.Unlock()
 			return "idle"
-		case <-time.After(10 * time.Second):
+		case <-time.After(60 * time.Second):
 			return "stuck"
 		}
 	case f[0] == "flushrelease" && len(f) == 1:
@@ -794,7 +794,7 @@ func (r *run) Do(op string) string {
 			close(r.w.resume)
 			select {
 			case <-r.flushDone:
-			case <-time.After(10 * time.Second):
+			case <-time.After(60 * time.Second):
 				return "hang"
 			}
 			r.flushDone = nil
@@ -834,7 +834,7 @@ func (r *run) Do(op string) string {
 			select {
 			case res := <-t.done:
 				outs = append(outs, res)
-			case <-time.After(10 * time.Second):
+			case <-time.After(60 * time.Second):
 				outs = append(outs, "hang")
 			}
 		}
